@@ -575,3 +575,39 @@ def c04_two_process_pins(seed=1):
         op(2, f"nop expect-login {want}"); op(2, f"login @{s2} {utype} {pin}"); op(2, f"logout @{s2}")
     op(2, "fini")
     return "\n".join(lines) + "\n"
+
+
+# ---------------------------------------------------------------------------------------------------------
+# C09: a refused C_GenerateKeyPair leaves neither half behind
+# ---------------------------------------------------------------------------------------------------------
+def c09_genpair_failures(seed=1):
+    """RSA, EC P-256 and Ed25519 pairs, as token and as session objects: the PRIVATE template is refused (unknown attribute, an attribute of the other half, CKA_LOCAL,
+    CKA_ALWAYS_AUTHENTICATE on a non-private key, a wrongly sized value) after the public half was accepted, or the PUBLIC template is refused; after each call everything is
+    searched for from two sessions and (token objects) the directory is decoded; a successful generation follows (handle numbers go on as the model says)."""
+    from .gen import ED25519
+    rng = random.Random(seed)
+    h = OpsGen(rng)
+    h.prologue(1)
+    t = h.toks[0]
+    k = h.open(t, True); h.login(k, t, 'user'); k2 = h.open(t, True)
+    U = ul
+    mechs = [("0", f"121={U(1024)} 122=010001"), ("1040", f"180={P256}"), ("1055", f"180={ED25519}")]
+    bad_priv = ["9999=" + hx("q"), "10a=01", "163=01", "202=01 2=00", "108=0001", "121=" + U(1024)]
+    bad_pub = ["9999=" + hx("q"), "108=01", "163=01", "10a=0001"]
+    def look():
+        for s in (k, k2):
+            h.op(f"findinit @{s}"); h.minted += 2; h.op(f"find @{s} 100"); h.op(f"findfinal @{s}")
+    for mech, pub in mechs:
+        for tok in ("00", "01"):
+            for bp in bad_priv:
+                h.op(f"genpair @{k} {mech} {pub} 1={tok} 3={hx(h.new_label())} 10a=01 / 1={tok} 3={hx(h.new_label())} 108=01 {bp}"); h.minted += 2
+                look()
+                if tok == "01": h.op("dumpdir")
+            for bq in bad_pub:
+                h.op(f"genpair @{k} {mech} {pub} 1={tok} 3={hx(h.new_label())} {bq} / 1={tok} 3={hx(h.new_label())} 108=01"); h.minted += 2
+                look()
+            g = h.op(f"genpair @{k} {mech} {pub} 1={tok} 3={hx(h.new_label())} 10a=01 / 1={tok} 3={hx(h.new_label())} 108=01"); h.minted += 2
+            look()
+            h.op(f"destroy @{k} @{g}"); h.op(f"destroy @{k} @{g}.1")
+    h.op("fini")
+    return h.text()
